@@ -328,12 +328,6 @@ Ltac wf_cases x H :=
   destruct sh as [|t1 [|t2 [|t3 [|t4 sh]]]]; try contradiction;
   destruct d; try contradiction; destruct ch; try contradiction; destruct md; try contradiction.
 
-Definition spec_result (x : pd) (k : Z) (per : list item) (d' : nest) : pd :=
-  {| shape := repeat 1 (Z.to_nat k) ++ out_shape per (shape x); dat := d';
-     s0 := s0 x + py_lo (n_time x) (slice_start (time_item per));
-     fsn := fsn x; fsd := fsd x * slice_step (time_item per);
-     chan := spec_chan k per (chan x); meta := spec_meta k per (meta x) |}.
-
 Ltac split_ok H :=
   repeat match type of H with
          | (_ && _) = true => let H1 := fresh "Hok" in apply andb_prop in H; destruct H as [H1 H]
@@ -795,6 +789,17 @@ Proof. intros <- H1 H2 H3. now apply zlen_take_sel. Qed.
 Lemma slice_axis a b c : is_int (ISlice a b c) = false /\ axis_item (ISlice a b c) = true.
 Proof. split; reflexivity. Qed.
 
+Ltac wrap_simpl H :=
+  unfold wrap_new, sel_c, sel_e in H;
+  change (0 =? 0) with true in H; change (1 =? 0) with false in H; change (1 =? 1) with true in H;
+  change (2 =? 0) with false in H; change (2 =? 1) with false in H; change (2 =? 2) with true in H;
+  cbv beta iota in H.
+
+Ltac simp_goal :=
+  cbv beta iota delta [Z.to_nat Pos.to_nat Pos.iter_op Nat.add repeat app out_shape is_int spec_chan spec_meta
+                       sel_lab wrap_lab Z.gtb Z.compare Pos.compare Pos.compare_cont].
+
+Opaque sel_t take_sel.
 Theorem counts x ix k per r :
   wf x -> denotes (ndim x) ix k per -> valid_on (shape x) per ->
   epoch_without_channel (ndim x) k per = false ->
@@ -814,8 +819,8 @@ Proof.
     pose proof (sel_len_nonneg t1 _ ltac:(pose proof (zlen_nonneg r); lia) Hok Hi Ha) as Hnn.
     cbn [np_regular] in Hr0. injection Hr0 as <-.
     assert (Hk' : k = 0 \/ k = 1 \/ k = 2) by lia.
-    destruct Hk' as [-> | [-> | ->]]; unfold wrap_new in Hw; cbn [Z.eqb Pos.eqb sel_c sel_e] in Hw; injection Hw as <-;
-      cbn [Z.to_nat Pos.to_nat Pos.iter_op Nat.add repeat app out_shape is_int spec_chan spec_meta wrap_lab Z.gtb Z.compare].
+    destruct Hk' as [-> | [-> | ->]]; wrap_simpl Hw; injection Hw as <-;
+      simp_goal.
     + exact Hrow.
     + repeat split; try assumption; try reflexivity. now repeat constructor.
     + repeat split; try assumption; try reflexivity; try lia. repeat constructor; assumption.
@@ -829,13 +834,13 @@ Proof.
     cbn [np_regular] in Hr0. injection Hr0 as <-.
     assert (Hk' : k = 0 \/ k = 1) by lia.
     destruct Hk' as [-> | ->]; destruct ic; try discriminate Hpic; try discriminate Hex;
-      unfold wrap_new in Hw; cbn [Z.eqb Pos.eqb sel_c sel_e] in Hw; injection Hw as <-;
-      cbn [Z.to_nat Pos.to_nat Pos.iter_op Nat.add repeat app out_shape is_int spec_chan spec_meta sel_lab wrap_lab Z.gtb Z.compare].
-    all: try (apply row_sel; [eapply py_index_rect; eassumption | assumption | assumption | assumption]).
+      wrap_simpl Hw; injection Hw as <-;
+      simp_goal.
+    all: try (apply row_sel; [eapply py_index_rect; [exact Hrect | exact Hok] | assumption | assumption | assumption]).
     all: try (split; [exact Hnn|]; split; [apply rect_sel; try assumption; reflexivity|];
               rewrite <- Hl in Hok |- *; apply zlen_take_sel; [assumption | reflexivity | reflexivity]).
-    all: (split; [lia|]; split; [exact Hnn|]; split; [reflexivity|]; split;
-          [repeat constructor; apply rect_sel; try assumption; reflexivity|]; split; [|reflexivity];
+    all: (split; [apply sel_len_nonneg; [rewrite <- Hl; apply zlen_nonneg | assumption | reflexivity | reflexivity]|]; split; [exact Hnn|]; split; [reflexivity|]; split;
+          [apply Forall_cons; [apply rect_sel; try assumption; reflexivity | apply Forall_nil]|]; split; [|reflexivity];
           rewrite <- Hl in Hok |- *; apply zlen_take_sel; [assumption | reflexivity | reflexivity]).
   - destruct Hwf as (Hc & Ht & He & Hrect & Hl & Hm).
     change (zlen [t1; t2; t3]) with 3 in *.
@@ -853,10 +858,10 @@ Proof.
     { intros it0 H0 blk Hb. rewrite <- He in H0. apply (take_sel_incl _ _ _ H0) in Hb.
       rewrite Forall_forall in Hrect. now apply Hrect. }
     destruct ie; try discriminate Hpie; destruct ic; try discriminate Hpic; try discriminate Hex;
-      unfold wrap_new in Hw; cbn [Z.eqb Pos.eqb sel_c sel_e] in Hw; injection Hw as <-;
-      cbn [Z.to_nat repeat app out_shape is_int spec_chan spec_meta sel_lab].
-    all: try (apply row_sel; [eapply py_index_rect; [apply Hblk|]; eassumption | assumption | assumption | assumption]).
-    all: try (split; [exact Hnn|]; split; [apply rect_sel; try (apply Hblk); try assumption; reflexivity|];
+      wrap_simpl Hw; injection Hw as <-;
+      simp_goal.
+    all: try (apply row_sel; [eapply py_index_rect; [apply Hblk; exact Hok | exact Hok0] | assumption | assumption | assumption]).
+    all: try (split; [exact Hnn|]; split; [apply rect_sel; try (apply Hblk; exact Hok); try assumption; reflexivity|];
               rewrite <- Hl in Hok0 |- *; apply zlen_take_sel; [assumption | reflexivity | reflexivity]).
     all: (split; [apply sel_len_nonneg; try assumption; reflexivity|]; split; [exact Hnn|]; split;
           [rewrite zlen_map; rewrite <- He in Hok |- *; apply zlen_take_sel; [assumption | reflexivity | reflexivity]|];
@@ -864,4 +869,254 @@ Proof.
                   apply rect_sel; try assumption; try reflexivity; eapply Hsub; eassumption|];
           split; [rewrite <- Hl in Hok0 |- *; apply zlen_take_sel; [assumption | reflexivity | reflexivity]|];
           rewrite <- Hm in Hok |- *; apply zlen_take_sel; [assumption | reflexivity | reflexivity]).
+Qed.
+Transparent sel_t take_sel.
+
+(* ------------------------------------------------------------------ selections commute with pairing *)
+Lemma combine_nil_r {A B} (l : list A) : combine l (@nil B) = [].
+Proof. destruct l; reflexivity. Qed.
+
+Lemma combine_map_r {A B C} (f : B -> C) (l1 : list A) : forall l2 : list B,
+  combine l1 (map f l2) = map (fun p => (fst p, f (snd p))) (combine l1 l2).
+Proof.
+  induction l1 as [|a l1 IH]; intros l2; [reflexivity|].
+  destruct l2 as [|b l2]; [reflexivity|]. cbn [combine map fst snd]. now rewrite IH.
+Qed.
+
+Lemma firstn_combine {A B} n : forall (a : list A) (b : list B),
+  firstn n (combine a b) = combine (firstn n a) (firstn n b).
+Proof.
+  induction n as [|n IH]; intros a b; [reflexivity|].
+  destruct a as [|x a]; [reflexivity|]. destruct b as [|y b]; [reflexivity|].
+  cbn [combine firstn]. now rewrite IH.
+Qed.
+Lemma skipn_combine {A B} n : forall (a : list A) (b : list B),
+  skipn n (combine a b) = combine (skipn n a) (skipn n b).
+Proof.
+  induction n as [|n IH]; intros a b; [reflexivity|].
+  destruct a as [|x a]; [reflexivity|]. destruct b as [|y b]; [cbn [combine skipn]; now rewrite combine_nil_r|].
+  cbn [combine skipn]. now rewrite IH.
+Qed.
+Lemma every_nth_combine {A B} s (a : list A) : forall (b : list B) k,
+  every_nth_aux k s (combine a b) = combine (every_nth_aux k s a) (every_nth_aux k s b).
+Proof.
+  induction a as [|x a IH]; intros b k; [reflexivity|].
+  destruct b as [|y b]; [cbn [combine every_nth_aux]; now rewrite combine_nil_r|].
+  cbn [combine every_nth_aux]. destruct k; [cbn [combine]|]; now rewrite IH.
+Qed.
+Lemma zlen_combine {A B} (a : list A) (b : list B) : zlen a = zlen b -> zlen (combine a b) = zlen a.
+Proof. unfold zlen. rewrite combine_length. lia. Qed.
+
+Lemma py_slice_step_combine {A B} s e st (a : list A) (b : list B) : zlen a = zlen b ->
+  py_slice_step s e st (combine a b) = combine (py_slice_step s e st a) (py_slice_step s e st b).
+Proof.
+  intros H. unfold py_slice_step, py_slice. rewrite (zlen_combine _ _ H), <- H.
+  now rewrite skipn_combine, firstn_combine, every_nth_combine.
+Qed.
+Lemma py_index_combine {A B} (d1 : A) (d2 : B) a b z : zlen a = zlen b ->
+  py_index (d1, d2) (combine a b) z = (py_index d1 a z, py_index d2 b z).
+Proof.
+  intros H. unfold py_index. rewrite (zlen_combine _ _ H), <- H. apply combine_nth. unfold zlen in H. lia.
+Qed.
+Lemma mask_sel_combine {A B} bs : forall (a : list A) (b : list B),
+  mask_sel bs (combine a b) = combine (mask_sel bs a) (mask_sel bs b).
+Proof.
+  induction bs as [|c bs IH]; intros a b; [reflexivity|].
+  destruct a as [|x a]; [reflexivity|]. destruct b as [|y b]; [cbn [combine mask_sel]; now rewrite combine_nil_r|].
+  cbn [combine mask_sel]. destruct c; [cbn [combine]|]; now rewrite IH.
+Qed.
+Lemma take_sel_combine {A B} (d1 : A) (d2 : B) it a b : zlen a = zlen b ->
+  take_sel (d1, d2) it (combine a b) = combine (take_sel d1 it a) (take_sel d2 it b).
+Proof.
+  intros H. destruct it; cbn [take_sel]; try reflexivity.
+  - now apply py_slice_step_combine.
+  - induction zs as [|z zs IH]; [reflexivity|]. cbn [map combine]. now rewrite IH, py_index_combine.
+  - apply mask_sel_combine.
+Qed.
+
+(* the entries kept by an item, paired: each kept (label, block) pair is a pair of the original *)
+Lemma In_sel_pairs {B C} (dB : B) (f : B -> C) it (ls : list Z) (bs : list B) lab (v : C) :
+  zlen ls = zlen bs -> sel_ok (zlen ls) it = true ->
+  In (lab, v) (combine (take_sel 0 it ls) (map f (take_sel dB it bs))) ->
+  exists u, In (lab, u) (combine ls bs) /\ v = f u.
+Proof.
+  intros Hl Hok Hin. rewrite combine_map_r, <- take_sel_combine in Hin by exact Hl.
+  apply in_map_iff in Hin. destruct Hin as ([l0 u] & Heq & Hin). cbn [fst snd] in Heq. injection Heq as -> <-.
+  exists u. split; [|reflexivity]. eapply take_sel_incl; [|exact Hin]. now rewrite zlen_combine.
+Qed.
+Lemma In_index_pair {B} (dB : B) (ls : list Z) (bs : list B) z :
+  zlen ls = zlen bs -> idx_ok (zlen ls) z = true -> In (py_index 0 ls z, py_index dB bs z) (combine ls bs).
+Proof.
+  intros Hl Hok. rewrite <- py_index_combine by exact Hl. apply py_index_In. now rewrite zlen_combine.
+Qed.
+
+(* ------------------------------------------------------------------ labels and metadata follow the data *)
+Ltac simp_has :=
+  cbv beta iota delta [has_row dat chan meta spec_chan spec_meta sel_lab wrap_lab Z.gtb Z.compare Pos.compare
+                       Pos.compare_cont is_int time_item last].
+
+Opaque sel_t take_sel.
+Theorem annotations_follow x ix k per r :
+  wf x -> denotes (ndim x) ix k per -> valid_on (shape x) per ->
+  epoch_without_channel (ndim x) k per = false ->
+  getitem x ix = RArr r ->
+  chan r = spec_chan k per (chan x) /\ meta r = spec_meta k per (meta x) /\
+  forall md ch row', has_row r md ch row' ->
+    exists row, has_row x md ch row /\ row' = sel_t (time_item per) row.
+Proof.
+  intros Hwf Hd Hv Hex Hget.
+  destruct (getitem_regular _ _ _ _ Hwf Hd Hv) as (d0 & d' & Hr0 & Hw & Hg).
+  rewrite Hg in Hget. assert (Hr : r = spec_result x k per d') by congruence. subst r. clear Hget Hg.
+  split; [reflexivity|]. split; [reflexivity|].
+  destruct (denotes_shape _ _ _ _ Hd) as (ex & _ & _ & _ & Hk0 & Hk & Hlen & HF & Hsl & _). clear Hd.
+  unfold valid_on in Hv. unfold spec_result.
+  wf_cases x Hwf; unfold ndim in *; cbn [shape dat chan meta s0 fsn fsd] in *.
+  - change (zlen [t1]) with 1 in *.
+    destruct per as [|it [|it2 ptl]]; try (len_contra Hlen).
+    destruct it as [| a b c | | | |]; try discriminate Hsl.
+    cbn [np_regular] in Hr0. injection Hr0 as <-.
+    assert (Hk' : k = 0 \/ k = 1 \/ k = 2) by lia.
+    destruct Hk' as [-> | [-> | ->]]; wrap_simpl Hw; injection Hw as <-; simp_has; intros md ch row'.
+    + intros (-> & -> & ->). eexists. split; [split; [reflexivity | split; reflexivity] | reflexivity].
+    + intros (-> & [H|[]]). injection H as <- <-. eexists. split; [split; [reflexivity | split; reflexivity] | reflexivity].
+    + intros (blk & [H|[]] & H2). injection H as <- <-. destruct H2 as [H|[]]. injection H as <- <-.
+      eexists. split; [split; [reflexivity | split; reflexivity] | reflexivity].
+  - destruct Hwf as (Ht & [Hb1 Hb2] & Hl).
+    change (zlen [t1; t2]) with 2 in *.
+    destruct per as [|ic [|it [|it2 ptl]]]; try (len_contra Hlen).
+    destruct it as [| a b0 c | | | |]; try discriminate Hsl.
+    cbn [all_ok] in Hv. split_ok Hv.
+    pose proof (Forall_inv HF) as Hpic. apply plain_axis_item in Hpic.
+    cbn [np_regular] in Hr0. injection Hr0 as <-.
+    assert (Hzb : zlen zs = zlen b) by lia. rewrite <- Hl in Hok.
+    assert (Hk' : k = 0 \/ k = 1) by lia.
+    destruct Hk' as [-> | ->]; destruct ic; try discriminate Hpic; try discriminate Hex;
+      wrap_simpl Hw; injection Hw as <-; simp_has; intros md ch row'.
+    + intros (-> & -> & ->). eexists. split; [split; [reflexivity | apply In_index_pair; assumption] | reflexivity].
+    + intros (-> & Hin). destruct (In_sel_pairs _ _ _ _ _ _ _ Hzb Hok Hin) as (row & Hrow & ->).
+      exists row. split; [split; [reflexivity | exact Hrow] | reflexivity].
+    + intros (-> & Hin). destruct (In_sel_pairs _ _ _ _ _ _ _ Hzb Hok Hin) as (row & Hrow & ->).
+      exists row. split; [split; [reflexivity | exact Hrow] | reflexivity].
+    + intros (-> & Hin). destruct (In_sel_pairs _ _ _ _ _ _ _ Hzb Hok Hin) as (row & Hrow & ->).
+      exists row. split; [split; [reflexivity | exact Hrow] | reflexivity].
+    + intros (blk & [H|[]] & Hin). injection H as <- <-.
+      destruct (In_sel_pairs _ _ _ _ _ _ _ Hzb Hok Hin) as (row & Hrow & ->).
+      exists row. split; [split; [reflexivity | exact Hrow] | reflexivity].
+    + intros (blk & [H|[]] & Hin). injection H as <- <-.
+      destruct (In_sel_pairs _ _ _ _ _ _ _ Hzb Hok Hin) as (row & Hrow & ->).
+      exists row. split; [split; [reflexivity | exact Hrow] | reflexivity].
+    + intros (blk & [H|[]] & Hin). injection H as <- <-.
+      destruct (In_sel_pairs _ _ _ _ _ _ _ Hzb Hok Hin) as (row & Hrow & ->).
+      exists row. split; [split; [reflexivity | exact Hrow] | reflexivity].
+  - destruct Hwf as (Hc & Ht & He & Hrect & Hl & Hm).
+    change (zlen [t1; t2; t3]) with 3 in *.
+    destruct per as [|ie [|ic [|it [|it2 ptl]]]]; try (len_contra Hlen).
+    destruct it as [| a b0 c | | | |]; try discriminate Hsl.
+    cbn [all_ok] in Hv. split_ok Hv.
+    assert (k = 0) by lia. subst k.
+    pose proof (Forall_inv HF) as Hpie. pose proof (Forall_inv (Forall_inv_tail HF)) as Hpic.
+    apply plain_axis_item in Hpic. apply plain_axis_item in Hpie.
+    cbn [np_regular] in Hr0. injection Hr0 as <-.
+    assert (Hzd : zlen zs0 = zlen d) by lia. rewrite <- Hm in Hok. rewrite <- Hl in Hok0.
+    assert (Hzb : forall md blk, In (md, blk) (combine zs0 d) -> zlen zs = zlen blk).
+    { intros md blk Hin. apply in_combine_r in Hin. rewrite Forall_forall in Hrect. destruct (Hrect _ Hin). lia. }
+    destruct ie; try discriminate Hpie; destruct ic; try discriminate Hpic; try discriminate Hex;
+      wrap_simpl Hw; injection Hw as <-; simp_has; intros md ch row';
+      try solve [intros (blk' & Hb' & Hin); destruct (In_sel_pairs _ _ _ _ _ _ _ Hzd Hok Hb') as (blk & Hblk & ->);
+                 destruct (In_sel_pairs _ _ _ _ _ _ _ (Hzb _ _ Hblk) Hok0 Hin) as (row & Hrow & ->);
+                 exists row; (split; [exists blk; split; [exact Hblk | exact Hrow] | reflexivity])].
+    + (* int, int *)
+      intros (-> & -> & ->).
+      pose proof (In_index_pair [] zs0 d z Hzd Hok) as Hblk.
+      eexists. split; [exists (py_index [] d z); split; [exact Hblk | apply In_index_pair; [eapply Hzb; exact Hblk | exact Hok0]] | reflexivity].
+    + intros (-> & Hin). pose proof (In_index_pair [] zs0 d z Hzd Hok) as Hblk.
+      destruct (In_sel_pairs _ _ _ _ _ _ _ (Hzb _ _ Hblk) Hok0 Hin) as (row & Hrow & ->).
+      exists row. split; [exists (py_index [] d z); split; [exact Hblk | exact Hrow] | reflexivity].
+    + intros (-> & Hin). pose proof (In_index_pair [] zs0 d z Hzd Hok) as Hblk.
+      destruct (In_sel_pairs _ _ _ _ _ _ _ (Hzb _ _ Hblk) Hok0 Hin) as (row & Hrow & ->).
+      exists row. split; [exists (py_index [] d z); split; [exact Hblk | exact Hrow] | reflexivity].
+    + intros (-> & Hin). pose proof (In_index_pair [] zs0 d z Hzd Hok) as Hblk.
+      destruct (In_sel_pairs _ _ _ _ _ _ _ (Hzb _ _ Hblk) Hok0 Hin) as (row & Hrow & ->).
+      exists row. split; [exists (py_index [] d z); split; [exact Hblk | exact Hrow] | reflexivity].
+Qed.
+Transparent sel_t take_sel.
+
+(* ------------------------------------------------------------------ arithmetic, copy, astype *)
+Lemma rect_map f c t b : rect c t b -> rect c t (map (map f) b).
+Proof.
+  intros [H1 H2]. split; [now rewrite zlen_map|].
+  apply Forall_forall. intros r Hin. apply in_map_iff in Hin. destruct Hin as (r0 & <- & Hr).
+  rewrite zlen_map. rewrite Forall_forall in H2. now apply H2.
+Qed.
+
+Theorem ops_keep_annotations f x :
+  shape (map_data f x) = shape x /\ s0 (map_data f x) = s0 x /\ fsn (map_data f x) = fsn x /\
+  fsd (map_data f x) = fsd x /\ chan (map_data f x) = chan x /\ meta (map_data f x) = meta x /\
+  taxis (map_data f x) = taxis x /\ (wf x -> wf (map_data f x)).
+Proof.
+  repeat split. intros Hwf. unfold map_data, wf. wf_cases x Hwf; cbn [shape dat chan meta map_nest].
+  - now rewrite zlen_map.
+  - destruct Hwf as (Ht & Hr & Hl). split; [exact Ht|]. split; [now apply rect_map | exact Hl].
+  - destruct Hwf as (Hc & Ht & He & Hrect & Hl & Hm).
+    split; [exact Hc|]. split; [exact Ht|]. split; [now rewrite zlen_map|]. split; [|split; assumption].
+    apply Forall_forall. intros blk Hin. apply in_map_iff in Hin. destruct Hin as (b0 & <- & Hb).
+    apply rect_map. rewrite Forall_forall in Hrect. now apply Hrect.
+Qed.
+
+(* ------------------------------------------------------------------ the code before the repairs / the recorded findings *)
+Definition x10 : pd := mk [10] 0 1000 1 (LOne 70) (LOne 90).
+Definition x24 : pd := mk [2; 4] 0 1000 1 (LMany [70; 71]) (LOne 90).
+Definition x234 : pd := mk [2; 3; 4] 0 1000 1 (LMany [70; 71; 72]) (LMany [90; 91]).
+Definition x324 : pd := mk [3; 2; 4] 0 1000 1 (LMany [70; 71]) (LMany [90; 91; 92]).
+
+Lemma wf_examples : wf x10 /\ wf x24 /\ wf x234 /\ wf x324.
+Proof. unfold wf. cbn. repeat split; try lia; repeat constructor. Qed.
+
+(* x[-20:] on 10 samples: all 10 samples come back, but the time axis is moved 10 samples back *)
+Lemma time_axis_unrepaired_refuted :
+  exists x a r, wf x /\ getitem_unrepaired x {| sole := true; items := [ISlice (Some a) None None] |} = RArr r /\
+                taxis r <> py_slice (Some a) None (taxis x).
+Proof.
+  exists x10, (-20). eexists. split; [apply wf_examples|]. split; [vm_compute; reflexivity|].
+  vm_compute. discriminate.
+Qed.
+
+(* a python list of booleans on the channel axis: labels [ch[True], ch[False]] *)
+Lemma labels_unrepaired_refuted :
+  exists x bs r, wf x /\ getitem_unrepaired x {| sole := true; items := [IMask bs false] |} = RArr r /\
+                 chan r <> sel_lab (IMask bs false) (chan x) /\ ~ wf r.
+Proof.
+  exists x24, [true; false]. eexists. split; [apply wf_examples|]. split; [vm_compute; reflexivity|].
+  split; [vm_compute; discriminate|]. unfold wf. cbn. intros (_ & _ & H). vm_compute in H. discriminate.
+Qed.
+
+(* a NumPy boolean array in a tuple position was refused *)
+Lemma mask_in_tuple_unrepaired_refuted :
+  exists x bs, wf x /\ getitem_unrepaired x (tuple [full; IMask bs true]) = RErr EValue /\
+               exists r, getitem x (tuple [full; IMask bs true]) = RArr r /\ wf r.
+Proof.
+  exists x234, [true; false; true]. split; [apply wf_examples|]. split; [vm_compute; reflexivity|].
+  eexists. split; [vm_compute; reflexivity|]. unfold wf. cbn. repeat split; try lia; repeat constructor.
+Qed.
+
+(* known finding: the epoch axis kept while the channel axis is dropped by an int *)
+Lemma counts_refuted :
+  exists x ix k per r, wf x /\ denotes (ndim x) ix k per /\ valid_on (shape x) per /\
+    epoch_without_channel (ndim x) k per = true /\ getitem x ix = RArr r /\ ~ wf r.
+Proof.
+  exists x234, (tuple [full; IInt 0]), 0, [full; IInt 0; full]. eexists.
+  split; [apply wf_examples|].
+  split; [eexists; split; [vm_compute; reflexivity|]; split; [vm_compute; reflexivity|]; split;
+          [reflexivity | change (ndim x234) with 3; lia]|].
+  split; [reflexivity|]. split; [reflexivity|]. split; [vm_compute; reflexivity|].
+  unfold wf. cbn. tauto.
+Qed.
+
+(* known finding: lists / masks on two axes are paired by NumPy *)
+Lemma pairing_refuted :
+  exists x ix r, wf x /\ getitem x ix = RArr r /\ ~ wf r.
+Proof.
+  exists x324, (tuple [IList [0; 2]; IList [0]]). eexists.
+  split; [apply wf_examples|]. split; [vm_compute; reflexivity|].
+  unfold wf. cbn. tauto.
 Qed.
